@@ -546,10 +546,14 @@ vbi3_bit_slicer_slice_with_points
 	points_start = points;
 	*n_points = 0;
 
-	if (bs->payload > buffer_size * 8) {
+	/* bs->payload counts bytes when the octet routines are used
+	   (bs->endian < 2), bits otherwise. */
+	if (((bs->endian < 2) ? bs->payload * 8 : bs->payload)
+	    > buffer_size * 8) {
 		warning (&bs->log,
 			 "buffer_size %u < %u bits of payload.",
-			 buffer_size * 8, bs->payload);
+			 buffer_size * 8,
+			 (bs->endian < 2) ? bs->payload * 8 : bs->payload);
 		return FALSE;
 	}
 
@@ -614,10 +618,14 @@ vbi3_bit_slicer_slice		(vbi3_bit_slicer *	bs,
 	assert (NULL != buffer);
 	assert (NULL != raw);
 
-	if (bs->payload > buffer_size * 8) {
+	/* bs->payload counts bytes when the octet routines are used
+	   (bs->endian < 2), bits otherwise. */
+	if (((bs->endian < 2) ? bs->payload * 8 : bs->payload)
+	    > buffer_size * 8) {
 		warning (&bs->log,
 			 "buffer_size %u < %u bits of payload.",
-			 buffer_size * 8, bs->payload);
+			 buffer_size * 8,
+			 (bs->endian < 2) ? bs->payload * 8 : bs->payload);
 		return FALSE;
 	}
 
